@@ -4,6 +4,7 @@ from ._floorprop import FloorProp
 class C13(FloorProp):
     id = 'C13'
     profile = 'c13'
+    crash_every = 3
     design_ref = 'DESIGN.md section 4 / C13'
     budgets = {'quick': 8000, 'thorough': 300000}
 
